@@ -209,11 +209,12 @@ class Run(object):
             "wall_s": round(wall, 3),
             "violations": len(self.violations),
         }
-        os.makedirs(EVID, exist_ok=True)
-        tmp = os.path.join(EVID, ".%s.json.tmp.%d" % (self.prop, os.getpid()))
-        with open(tmp, "w") as f:
-            json.dump(ev, f, indent=1, sort_keys=True)
-        os.replace(tmp, os.path.join(EVID, "%s.json" % self.prop))
+        if not os.environ.get("VERIF_NO_EVIDENCE"):
+            os.makedirs(EVID, exist_ok=True)
+            tmp = os.path.join(EVID, ".%s.json.tmp.%d" % (self.prop, os.getpid()))
+            with open(tmp, "w") as f:
+                json.dump(ev, f, indent=1, sort_keys=True)
+            os.replace(tmp, os.path.join(EVID, "%s.json" % self.prop))
         for key, (what, n) in sorted(self.known_hits.items()):
             print("KNOWN-FINDING: property=%s key=%s %s (witnesses this run: %d)"
                   % (self.prop, key, what, n))
